@@ -1304,6 +1304,7 @@ type ldGenCfg struct {
 	pInject      int  // percent of trees with an injected load error (scaled)
 	refsMonitor  bool // also evaluate the root-reference monitor (property C08 only)
 	wild         bool // wildcard task names (property C15 only)
+	pMulti       int  // percent of the trees that get TWO OR THREE load errors of different kinds, in different files (property C09)
 	pDup         int  // percent of the error-free trees that get one key used twice (property C08 only)
 }
 
@@ -1542,7 +1543,47 @@ func (c *Ctx) genTree(cfg ldGenCfg) ldCase {
 	if note == "" && cfg.pDup > 0 && c.chance(cfg.pDup) {
 		note = c.injectDupKey(gf)
 	}
-	if note != "" {
+	if note == "" && cfg.pMulti > 0 && c.chance(cfg.pMulti) {
+		// several errors in one tree — in sibling includes of one file, nested below each other, in a file
+		// reached along two paths: the error reported must be the one a sequential read in declaration
+		// order meets first, on every load
+		var kinds []string
+		for j := 2 + c.Rng.Intn(2); j > 0; j-- {
+			switch c.Rng.Intn(4) {
+			case 0:
+				p := c.Rng.Intn(n)
+				inc := c.genInclude(freshNS(p), 90+c.Rng.Intn(5), nil)
+				inc.Optional = false
+				at := c.Rng.Intn(len(gf[p].f.Includes) + 1)
+				gf[p].f.Includes = append(gf[p].f.Includes[:at:at], append([]ldInclude{inc}, gf[p].f.Includes[at:]...)...)
+				kinds = append(kinds, "missing")
+			case 1:
+				gf[c.Rng.Intn(n)].f.Version = 0
+				kinds = append(kinds, "noversion")
+			case 2:
+				if k := c.injectDupKey(gf); k != "" {
+					kinds = append(kinds, "dupkey")
+				}
+			default:
+				if n > 2 {
+					i := 1 + c.Rng.Intn(n-1)
+					anc := i
+					for steps := c.Rng.Intn(3); steps > 0 && len(gf[anc].parents) > 0; steps-- {
+						anc = gf[anc].parents[0]
+					}
+					gf[i].f.Includes = append(gf[i].f.Includes, c.genInclude(freshNS(i), gf[anc].f.ID, nil))
+					kinds = append(kinds, "cycle")
+				}
+			}
+		}
+		sort.Strings(kinds)
+		note = "multi:" + strings.Join(kinds, "+")
+		c.Hit("inject:multi")
+		for _, k := range kinds {
+			c.Hit("multi:" + k)
+		}
+	}
+	if note != "" && !strings.HasPrefix(note, "multi:") {
 		c.Hit("inject:" + note)
 	}
 	d := ldCase{Op: "tree", Root: gf[0].f.ID, Note: note}
@@ -1662,14 +1703,14 @@ func runLoad(c *Ctx) {
 // runLoadDeep (property C09): the trees of domain load, without the C08 reference monitor.
 func runLoadDeep(c *Ctx) {
 	runLoadWith(c, c.Pick(200, 1500), c.Pick(25, 100),
-		ldGenCfg{maxDepth: c.Pick(3, 4), pRootParent: 0, pExtraParent: 25, pTwice: 22, keyPool: 3, pInject: 20})
+		ldGenCfg{maxDepth: c.Pick(3, 4), pRootParent: 0, pExtraParent: 25, pTwice: 22, keyPool: 3, pInject: 20, pMulti: 30})
 }
 
 // runLoadRep (property C09): wide, shallow trees — many sibling includes of one parent,
 // one file under several namespaces, diamonds, few variable names — loaded more often.
 func runLoadRep(c *Ctx) {
 	runLoadWith(c, c.Pick(110, 800), c.Pick(40, 200),
-		ldGenCfg{maxDepth: 2, pRootParent: 70, pExtraParent: 30, pTwice: 35, keyPool: 2, pInject: 8})
+		ldGenCfg{maxDepth: 2, pRootParent: 70, pExtraParent: 30, pTwice: 35, keyPool: 2, pInject: 8, pMulti: 30})
 }
 
 var ldStarWords = []string{"a", "b", "ab", "a-b", "x-a", "t", "x-a-b", "n1", "", "a:t"}
